@@ -141,7 +141,29 @@ def run(s):
                 if list(one.columns) != list(two.columns) or not numpy.allclose(one.to_numpy(dtype=float), two.to_numpy(dtype=float), rtol=1e-10, atol=1e-10):
                     return core.refuted("runtime-contract", "%s: filling an already filled table changes it" % system, witness_id="idempotent:" + system,
                                         replay={"reproduced": True, "table": df.to_dict("list")})
-        return core.proved("runtime-contract", "%d generic invariant tables over nine systems: fill(fill(x)) == fill(x)" % n)
+        # the same with whole-number tables typed as integers (as pandas reads moduli printed without decimal point): an independent sufficient subset, any integers
+        for system in fill_env.SYSTEMS:
+            if system == "triclinic":
+                continue
+            B = numpy.array([[float(sp.N(x)) for x in v] for v in laue.invariant_basis(system)])
+            for trial in range(2 if tier == "quick" else 20):
+                chosen = []
+                for k in rnd.permutation(21):
+                    if numpy.linalg.matrix_rank(B[:, chosen + [int(k)]], tol=1e-9) > len(chosen):
+                        chosen.append(int(k))
+                df = pandas.DataFrame({fill_env.NAMES[k]: rnd.randint(20, 600, size=3).astype("int64") for k in chosen})
+                try:
+                    one = fill.fill_cij(df.copy(), system)
+                    two = fill.fill_cij(one.copy(), system)
+                    ref = fill.fill_cij(df.astype(float), system)
+                except Exception as e:
+                    return core.refuted("runtime-contract", "%s, integer-typed table: %r" % (system, e), witness_id="idempotent-int:" + system, replay={"reproduced": True, "table": df.to_dict("list")})
+                n += 1
+                same = lambda x, y: list(x.columns) == list(y.columns) and numpy.allclose(x.to_numpy(dtype=float), y.to_numpy(dtype=float), rtol=1e-10, atol=1e-8)
+                if not same(one, two) or not same(one, ref):
+                    return core.refuted("runtime-contract", "%s: filling an integer-typed table %s" % (system, "twice changes it" if not same(one, two) else "differs from filling the same numbers typed as floats"),
+                                        witness_id="idempotent-int:" + system, replay={"reproduced": True, "table": df.to_dict("list"), "first_pass": one.to_dict("list"), "second_pass": two.to_dict("list")})
+        return core.proved("runtime-contract", "%d generic invariant tables over nine systems (float- and integer-typed): fill(fill(x)) == fill(x)" % n)
     s.oblige("C14.filling_idempotent(generic tensors)", idempotent_generic, ["fill.fill_cij"], kind="finite")
 
     def idempotent_zero_component():
